@@ -115,6 +115,19 @@ ExtRows(cfg, tab) ==
     IN [i \in 1..Len(its) |-> ItRow(cfg, tab.no, its[i])] \o [i \in 1..Len(sp) |-> SpRow(cfg, tab.no, sp[i], last)]
 
 \* ---------------------------------------------------------------- lines
+\* title line metadata: "TABLE NO. <no>: <method>[: D-OPTIMALITY]: [Goal Function=<goal>: ]Problem=<p> Subproblem=<s>
+\* Superproblem1=<a> Iteration1=<b> Superproblem2=<c> Iteration2=<d>".  .ext files of NONMEM >= 7.3 have the
+\* Goal Function part, .phi / .cov / .cor / .coi files (and .ext files of NONMEM 7.2) do not; the table of a
+\* $DESIGN problem carries the design optimality.  meth: 1 FOCE-I, 2 importance sampling, 4 "First Order (Evaluation)"
+Meta(meth, design, goal, problem, sub, sp) ==
+    [meth |-> meth, design |-> design, goal |-> goal, problem |-> problem, sub |-> sub,
+     sup1 |-> sp[1], it1 |-> sp[2], sup2 |-> sp[3], it2 |-> sp[4]]
+NoMeta == Meta(0, FALSE, FALSE, 0, 0, <<0, 0, 0, 0>>)        \* $TABLE output: "TABLE NO.  1" only
+ExtMeta(tab) == Meta(tab.no, FALSE, tab.rows # "nm72", 1, 0, <<0, 0, 0, 0>>)
+DesignMeta == Meta(4, TRUE, TRUE, 2, 0, <<0, 0, 0, 0>>)
+\* the same table in the .phi / .cov file: no Goal Function part
+Plain(m) == [m EXCEPT !.goal = FALSE]
+
 GenVal(t, r, c) == ((t * 5 + r * 3 + c * 7) % 11) - 5
 GenCols == 3
 GenLines(f) ==
@@ -126,14 +139,44 @@ GenLines(f) ==
                                       ELSE <<[k |-> "R", row |-> [special |-> FALSE, n |-> r,
                                                                    vals |-> [c \in 1..GenCols |-> GenVal(tb.no, r, c)], obj |-> 0]]>>
                                            \o (IF r \in tb.rep THEN <<[k |-> "H"]>> ELSE <<>>) \o Body(r + 1)
-                       IN <<[k |-> "T", no |-> tb.no], [k |-> "H"]>> \o Body(1) \o Tab(k + 1)
+                       IN <<[k |-> "T", no |-> tb.no, meta |-> NoMeta], [k |-> "H"]>> \o Body(1) \o Tab(k + 1)
     IN Tab(1)
+\* the table of a $DESIGN problem that follows the estimation problem: no iterations; the final estimates of the
+\* last estimation step again (with the design criterion as OBJ) and the expected standard errors
+DesignCodes == {FINAL, SE, SDCORR, SESDCORR, FIXROW}
+DesignRows(cfg, tabs) ==
+    LET prev == tabs[Len(tabs)]
+        its == IterSeq(prev.iters)
+        no == Len(tabs) + 1
+        sp == SetToSeq(DesignCodes)
+    IN [i \in 1..Len(sp) |-> [SpRow(cfg, IF sp[i] = FINAL THEN prev.no ELSE no, sp[i], its[Len(its)]) EXCEPT !.obj = IF sp[i] = FINAL THEN 0 - 40 - no ELSE 0]]
 ExtLines(f) ==
     LET RECURSIVE Tab(_)
-        Tab(k) == IF k > Len(f.tabs) THEN <<>>
+        Tab(k) == IF k > Len(f.tabs)
+                  THEN IF f.design
+                       THEN LET rows == DesignRows(f.cfg, f.tabs) IN
+                            <<[k |-> "T", no |-> Len(f.tabs) + 1, meta |-> DesignMeta], [k |-> "H"]>> \o [i \in 1..Len(rows) |-> [k |-> "R", row |-> rows[i]]]
+                       ELSE <<>>
                   ELSE LET rows == ExtRows(f.cfg, f.tabs[k]) IN
-                       <<[k |-> "T", no |-> f.tabs[k].no], [k |-> "H"]>> \o [i \in 1..Len(rows) |-> [k |-> "R", row |-> rows[i]]] \o Tab(k + 1)
+                       <<[k |-> "T", no |-> f.tabs[k].no, meta |-> ExtMeta(f.tabs[k])], [k |-> "H"]>> \o [i \in 1..Len(rows) |-> [k |-> "R", row |-> rows[i]]] \o Tab(k + 1)
     IN Tab(1)
+
+\* ---- mode "hdr": one title line of every shape, put on a table file of every kind by the writer
+HdrLines(f) == <<[k |-> "T", no |-> f.no, meta |-> f.meta], [k |-> "H"],
+                 [k |-> "R", row |-> [special |-> FALSE, n |-> 0, vals |-> <<1>>, obj |-> 2]]>>
+HdrMetas == {Meta(m, d, g, p, sb, sp) : m \in {1, 2, 4}, d \in BOOLEAN, g \in BOOLEAN, p \in 1..2, sb \in 0..1,
+                                       sp \in {<<0, 0, 0, 0>>, <<1, 2, 0, 0>>, <<1, 2, 1, 3>>}}
+
+\* ---- mode "log": the error / warning log of a results object in its JSON form.  Log.to_dict numbers the
+\* entries 0, 1, 2, ...; JSON object keys are STRINGS, so a decoder must restore the order of the entries from
+\* the order of the object or from the NUMERIC value of the keys - the lexicographic order of the decimal keys
+\* is the sequence order only up to 10 entries (theorem LexOrderBreaks below).
+LogSizes == {0, 1, 10, 11, 14}
+LogEntries(f) == [i \in 1..f.n |-> [cat |-> IF (i + f.pat) % 3 = 0 THEN "WARNING" ELSE "ERROR", msg |-> i]]
+Digits(k) == IF k < 10 THEN <<k>> ELSE <<k \div 10, k % 10>>          \* decimal key of entry number k (< 100)
+LexLess(a, b) == \/ \E i \in 1..Len(a) : i <= Len(b) /\ a[i] < b[i] /\ \A j \in 1..(i - 1) : a[j] = b[j]
+                 \/ Len(a) < Len(b) /\ \A j \in 1..Len(a) : a[j] = b[j]
+LexOrderIsSequenceOrder(n) == \A i, j \in 0..(n - 1) : i < j => LexLess(Digits(i), Digits(j))
 
 \* ---- mode "tab": the column layout of a $TABLE file.  The record lists ID TIME and some of DV PRED RES WRES
 \* IPRED CWRES in any order; unless NOAPPEND is given NONMEM appends DV PRED RES WRES and writes an explicitly
@@ -148,7 +191,7 @@ LabelCode(l) == CASE l = "ID" -> 1 [] l = "TIME" -> 2 [] l = "DV" -> 3 [] l = "P
 TabVal(r, l) == (IF LabelCode(l) % 2 = 0 THEN 0 - 1 ELSE 1) * (r + 4 * LabelCode(l))      \* never 0
 TabRows == 3
 TabLines(f) == LET lay == Layout(f.listed, f.noappend) IN
-    <<[k |-> "T", no |-> 1], [k |-> "H"]>>
+    <<[k |-> "T", no |-> 1, meta |-> NoMeta], [k |-> "H"]>>
     \o [r \in 1..TabRows |-> [k |-> "R", row |-> [special |-> FALSE, n |-> r, vals |-> [c \in 1..Len(lay) |-> TabVal(r, lay[c])], obj |-> 0]]]
 TabLists == {<<"ID", "TIME">> \o q : q \in {q \in UNION {[1..n -> TabItems] : n \in 1..MaxTabItems} :
                                                    \A i, j \in DOMAIN q : i # j => q[i] # q[j]}}
@@ -170,22 +213,30 @@ Init == /\ pc = 1
         /\ acc = <<>>
         /\ \/ /\ "gen" \in Modes /\ mode = "gen"
               /\ \E tabs \in GenFiles : file = [tabs |-> tabs] /\ lines = GenLines([tabs |-> tabs])
+           \/ /\ "hdr" \in Modes /\ mode = "hdr"
+              /\ \E m \in HdrMetas, no \in {1, 12} :
+                    file = [no |-> no, meta |-> m] /\ lines = HdrLines([no |-> no, meta |-> m])
+           \/ /\ "log" \in Modes /\ mode = "log"
+              /\ \E n \in LogSizes, pat \in 0..2 : file = [n |-> n, pat |-> pat] /\ lines = <<>>
            \/ /\ "tab" \in Modes /\ mode = "tab"
               /\ \E listed \in TabLists, na \in BOOLEAN :
                     file = [listed |-> listed, noappend |-> na] /\ lines = TabLines([listed |-> listed, noappend |-> na])
            \/ /\ "run" \in Modes /\ mode = "run"
-              /\ \E cfg \in Cfgs, tabs \in ExtFiles, pv \in PhiVariants :
+              /\ \E cfg \in Cfgs, tabs \in ExtFiles, pv \in PhiVariants, dsg \in BOOLEAN :
+                    \* a $DESIGN problem after the estimation problem (one more table in .ext and .phi): only after
+                    \* estimation steps without covariance step
+                    /\ (dsg => \A k \in 1..Len(tabs) : tabs[k].rows = "nocov")
                     \* an aborted earlier step followed by a later step does not occur; all steps log the same iterations
                     /\ \A k \in 1..(Len(tabs) - 1) : tabs[k].rows # "abort"
                     /\ \A k \in 1..Len(tabs) : tabs[k].iters = tabs[1].iters
                     /\ (~AllPhi => pv = ((cfg.nth + Len(tabs) + (IF tabs[Len(tabs)].rows = "full" THEN 1 ELSE 0)) % 4))
                     /\ (~AllIters => tabs[1].iters = IF (cfg.nth + Len(tabs) + (IF cfg.sg = "d1" THEN 0 ELSE 1)) % 2 = 0 THEN "0" ELSE "0-5-10")
-                    /\ file = [cfg |-> cfg, tabs |-> tabs, phikind |-> IF pv = 2 THEN "PHI" ELSE "ETA", zero |-> pv \in {1, 3}, zeta |-> pv = 3]
-                    /\ lines = ExtLines([cfg |-> cfg, tabs |-> tabs])
+                    /\ file = [cfg |-> cfg, tabs |-> tabs, phikind |-> IF pv = 2 THEN "PHI" ELSE "ETA", zero |-> pv \in {1, 3}, zeta |-> pv = 3, design |-> dsg]
+                    /\ lines = ExtLines([cfg |-> cfg, tabs |-> tabs, design |-> dsg])
 
 \* ---------------------------------------------------------------- the reader: a line automaton
 NoReg == [c \in Codes |-> 0]
-ReadT(l) == acc' = Append(acc, [no |-> l.no, hdr |-> 0, dropped |-> 0, rows |-> <<>>, reg |-> NoReg, lastit |-> 0])
+ReadT(l) == acc' = Append(acc, [no |-> l.no, meta |-> l.meta, hdr |-> 0, dropped |-> 0, rows |-> <<>>, reg |-> NoReg, lastit |-> 0])
 ReadH == LET k == Len(acc) IN
          acc' = IF acc[k].hdr = 0 THEN [acc EXCEPT ![k].hdr = 1]
                 ELSE [acc EXCEPT ![k].dropped = @ + 1]           \* repeated header: dropped
@@ -237,10 +288,19 @@ AutomatonIsReference ==
            /\ \A l \in {lay[c] : c \in 1..Len(lay)} : \A r \in 1..TabRows : acc[1].rows[r].vals[FirstCol(lay, l)] = TabVal(r, l)
            /\ (~file.noappend => SubSeq(lay, Len(lay) - 3, Len(lay)) = Appended)
            /\ \A l \in {file.listed[c] : c \in 1..Len(file.listed)} : \E c \in 1..Len(lay) : lay[c] = l     \* nothing listed is lost
-      ELSE /\ Len(acc) = Len(file.tabs)
-           /\ \A k \in 1..Len(acc) :
+      ELSE IF mode = "log"
+      THEN LexOrderIsSequenceOrder(file.n) <=> file.n <= 10        \* LexOrderBreaks
+      ELSE IF mode = "hdr"
+      THEN Len(acc) = 1 /\ acc[1].no = file.no /\ acc[1].meta = file.meta /\ Len(acc[1].rows) = 1
+      ELSE /\ Len(acc) = Len(file.tabs) + (IF file.design THEN 1 ELSE 0)
+           /\ (file.design => LET d == Len(acc) IN
+                                /\ acc[d].no = Len(file.tabs) + 1 /\ acc[d].meta = DesignMeta
+                                /\ acc[d].rows = DesignRows(file.cfg, file.tabs)
+                                \* the design table repeats the final estimates of the last estimation step
+                                /\ AutoRow(d, FINAL).vals = RefFinal(ExtRows(file.cfg, file.tabs[Len(file.tabs)])).vals)
+           /\ \A k \in 1..Len(file.tabs) :
                 LET rows == ExtRows(file.cfg, file.tabs[k]) IN
-                /\ acc[k].no = file.tabs[k].no
+                /\ acc[k].no = file.tabs[k].no /\ acc[k].meta = ExtMeta(file.tabs[k])
                 /\ \A c \in Codes : AutoRow(k, c) = Designated(rows, c)
                 /\ AutoFinal(k) = RefFinal(rows)
 
@@ -327,13 +387,25 @@ Emit ==
       THEN PrintT(<<"GEN", ToJson([tabs |-> [k \in 1..Len(file.tabs) |->
                         [no |-> file.tabs[k].no, nrows |-> file.tabs[k].nrows, rep |-> SetToSeq(file.tabs[k].rep),
                          rows |-> [r \in 1..file.tabs[k].nrows |-> [c \in 1..GenCols |-> GenVal(file.tabs[k].no, r, c)]]]]])>>)
+      ELSE IF mode = "log"
+      THEN PrintT(<<"LOG", ToJson([n |-> file.n, pat |-> file.pat, entries |-> LogEntries(file)])>>)
+      ELSE IF mode = "hdr"
+      THEN PrintT(<<"HDR", ToJson([no |-> file.no, meta |-> file.meta])>>)
       ELSE IF mode = "tab"
       THEN LET lay == Layout(file.listed, file.noappend) IN
            PrintT(<<"TAB", ToJson([listed |-> file.listed, noappend |-> file.noappend, layout |-> lay,
                                    rows |-> [r \in 1..TabRows |-> [c \in 1..Len(lay) |-> TabVal(r, lay[c])]],
                                    bylabel |-> [l \in {lay[c] : c \in 1..Len(lay)} |-> [r \in 1..TabRows |-> TabVal(r, l)]]])>>)
       ELSE LET cfg == file.cfg IN
-           PrintT(<<"RUN", ToJson([cfg |-> cfg, phikind |-> file.phikind, zero |-> file.zero, zeta |-> file.zeta,
+           PrintT(<<"RUN", ToJson([cfg |-> cfg, phikind |-> file.phikind, zero |-> file.zero, zeta |-> file.zeta, design |-> file.design,
+                      metas |-> [k \in 1..Len(file.tabs) |-> ExtMeta(file.tabs[k])],
+                      dtab |-> IF file.design
+                               THEN [on |-> TRUE, no |-> Len(file.tabs) + 1, meta |-> DesignMeta, rows |-> DesignRows(cfg, file.tabs),
+                                     phiflat |-> [s \in 1..3 |-> PhiFlat(Len(file.tabs) + 1, s)],
+                                     phirows |-> [s \in 1..3 |-> [id |-> PhiIds[s],
+                                                                  eta |-> [i \in 1..Dim(cfg.om) |-> IF PhiZero(s) THEN 0 ELSE EtaOf(Len(file.tabs) + 1, s, i)],
+                                                                  obj |-> IF PhiZero(s) THEN 0 ELSE 0 - PhiObj(Len(file.tabs) + 1, s)]]]
+                               ELSE [on |-> FALSE],
                       fileorder |-> [k \in 1..Len(FileOrder(cfg)) |-> ParOut(FileOrder(cfg)[k])],
                       reportorder |-> [k \in 1..Len(ReportOrder(cfg)) |-> ParOut(ReportOrder(cfg)[k])],
                       ext |-> LET pos == RepPos(cfg) IN [k \in 1..Len(file.tabs) |-> ExtOut(cfg, pos, file.tabs[k])],
